@@ -3,6 +3,7 @@ import XvcPipeline.Relay
 import XvcPipeline.Demo
 import XvcPipeline.LockOrder
 import XvcPipeline.Gen.FailurePath
+import XvcPipeline.PubBound
 /-!
 # C11 — `xvc pipeline run` always terminates with a verdict for every step
 
@@ -13,7 +14,8 @@ the handlers, thread failures `die` at any moment), every schedule.
 
 Assumptions (hypotheses of the theorems or of the model, see §5/§7 of DESIGN.md): the dependency graph is acyclic
 (`Ranked`, otherwise the run is rejected, C10), `pipeline.process_pool_size > 0`, step commands terminate
-(`procExit` is a step of the system), channels are unbounded (a step sends at most 12 states; capacity 100000).
+(`procExit` is a step of the system); the bounded channels (capacity 100000) never block for pipelines of at most 8333
+steps: `C11_publications_bounded`, `C11_bounded_channels_never_block`.
 -/
 namespace Sched
 open Gen
@@ -133,6 +135,49 @@ example : WF demoJoin.n demoJoin.deps ∧ Ranked demoJoin.n demoJoin.deps := by
     by_cases h2 : s = 2
     · subst h2; simp at hd; rcases hd with rfl | rfl <;> simp
     · simp [h2] at hd
+
+/-! ## The bounded channels never block
+
+The model's channels are unbounded lists; the real ones are `crossbeam_channel::bounded(CHANNEL_CAPACITY)` with
+`CHANNEL_CAPACITY = 100000`, and the notifier channel into which `step_state_bulletin` forwards EVERY published state is never
+read: after 100000 publications in one run the bulletin thread blocks forever.  What the model assumes is therefore a theorem
+about the regenerated handler table: no step publishes more than 12 states. -/
+
+/-- over the REGENERATED handler table (`Gen.emits`, `Gen.trans`): along every edge a handler of the code can take the number
+    of states still to be published strictly decreases — in particular no handler returns a self transition from the state
+    that transition enters (no publishing self loop: with it every 10 ms poll would publish one more state) -/
+theorem C11_publish_table_decreases : pubBoundTable = true ∧ pubBoundPositive = true := by decide
+
+/-- the events the model's guards allow are events the handler's source returns -/
+theorem C11_guard_in_handler_table {c : Cfg} {σ : Sys} {s : Nat} {x : St} {f e : Ev} {k : Nat}
+    (g : Guard c σ s x f e k) : e ∈ emits x f := guard_emits g
+
+/-- ALONG EVERY RUN of the executable model (the runs the trace validator accepts; thread failures included) every step
+    publishes at most 12 states -/
+theorem C11_publications_bounded {c : Cfg} {σ' : Sys} (ls : List Label) (h : runL c (init c) ls = some σ') (s : Nat) :
+    countPub s ls ≤ 12 := by
+  have := runL_pub_bound C11_publish_table_decreases.1 C11_publish_table_decreases.2
+    (fun g => C11_guard_in_handler_table g) 12 ls (init c) σ' (fun _ => 0)
+    (by intro t; simp [remaining, init, pubBound]) h s
+  simpa using this
+
+/-- hence all steps together publish at most 12·n states, and a pipeline of at most 8333 steps never fills a channel of
+    capacity 100000: the bounded channels of the implementation never block (limit of the UNCHANGED code: a run is bounded
+    to 100000 publications in total, i.e. ⌊100000/12⌋ = 8333 steps) -/
+theorem C11_bounded_channels_never_block {c : Cfg} {σ' : Sys} (ls : List Label) (h : runL c (init c) ls = some σ')
+    (hn : c.n ≤ 8333) : totalPub c.n ls ≤ 12 * c.n ∧ totalPub c.n ls ≤ 100000 := by
+  have h1 : totalPub c.n ls ≤ 12 * c.n := sumTo_le_mul (fun s => C11_publications_bounded ls h s) c.n
+  exact ⟨h1, by omega⟩
+
+/-- non-vacuity: the bound is tight up to the one state a step without dependency steps skips — an independent step that
+    finds the pool full publishes 11 states (a step that also waited for dependency steps: 12) -/
+example : (runL demoPool (init demoPool)
+    (toWaitingToRun 0 ++ [.handler 0 .StartProcess, .publish 0, .handler 0 .WaitProcess, .publish 0] ++
+     toWaitingToRun 1 ++ [.handler 1 .ProcessPoolFull, .publish 1, .procExit 0 true,
+       .handler 0 .ProcessCompletedSuccessfully, .publish 0, .handler 1 .StartProcess, .publish 1, .handler 1 .WaitProcess, .publish 1,
+       .procExit 1 true, .handler 1 .ProcessCompletedSuccessfully, .publish 1])).isSome = true ∧
+    countPub 1 (toWaitingToRun 1 ++ [.handler 1 .ProcessPoolFull, .publish 1, .handler 1 .StartProcess, .publish 1,
+      .handler 1 .WaitProcess, .publish 1, .handler 1 .ProcessCompletedSuccessfully, .publish 1]) = 11 := by decide
 
 /-! ## The failure path of a step thread when messages cannot be delivered
 
@@ -271,6 +316,10 @@ end Relay
 #print axioms Sched.C11_terminates
 #print axioms Sched.C11_thread_failure_publishes_broken
 #print axioms Sched.C11_F5_unrepaired_counterexample
+#print axioms Sched.C11_publish_table_decreases
+#print axioms Sched.C11_guard_in_handler_table
+#print axioms Sched.C11_publications_bounded
+#print axioms Sched.C11_bounded_channels_never_block
 #print axioms Sched.C11_handler_final_on_every_path
 #print axioms Sched.C11_lock_order
 #print axioms Sched.C11_lock_order_strict
